@@ -681,8 +681,17 @@ def case_planner(ctx, inp):
         cs = tuple(inp["cs"])
         with warnings.catch_warnings():
             warnings.simplefilter("ignore")
-            got = tuple(int(c) for c in R._balance_chunksizes(cs))
-        if sum(got) != sum(cs) or any(c <= 0 for c in got):
+            try:
+                got = tuple(int(c) for c in R._balance_chunksizes(cs))
+            except ZeroDivisionError as e:
+                ctx.fail("_balance_chunksizes raised ZeroDivisionError", observed=str(e))
+                return
+        ctx.eq("_balance_chunksizes", ctx.lean(Sym("balance"), list(cs)), list(got))
+        if 0 in cs:
+            ctx.branch("balance:zero-length-chunks")
+            if sum(got) != sum(cs) or any(c < 0 for c in got):
+                ctx.fail("_balance_chunksizes: result does not add up", observed=got)
+        elif sum(got) != sum(cs) or any(c <= 0 for c in got):
             ctx.fail("_balance_chunksizes: result does not add up / has an empty chunk", observed=got)
         if got != cs:
             ctx.branch("balance:changed")  # how well it balances is a heuristic, not part of the statement
@@ -1182,7 +1191,10 @@ def generate(ctx):
             yield "planner", {"op": "divide", "cs": cs, "w": rng.randint(0 if rng.random() < 0.03 else 1, 45)}
         elif r < 0.47:
             n = rng.randint(1, 60)
-            yield "planner", {"op": "balance", "cs": rand_comp(rng, n, rng.choice(["uniform", "uniform", "irregular", "ragged"]))}
+            if rng.random() < 0.15:
+                yield "planner", {"op": "balance", "cs": rand_comp_zeros(rng, rng.randint(0, 12)) + [0] * rng.randint(0, 3)}
+            else:
+                yield "planner", {"op": "balance", "cs": rand_comp(rng, n, rng.choice(["uniform", "uniform", "irregular", "ragged"]))}
         elif r < 0.8:
             rr = rng.random()
             if rr < 0.4:
@@ -1205,6 +1217,13 @@ def generate(ctx):
             yield "planner", {"op": "plan", "old": [rand_comp(rng, s) for s in shape],
                               "new": [rand_comp(rng, s) for s in shape], "itemsize": rng.choice([1, 4, 8]),
                               "threshold": rng.choice([None, 1, 2, 4]), "bsl": rng.choice([None, 8, 64, 256, 4096])}
+    for _ in range(ctx.n(150, 1500)):
+        n = rng.randint(1, 80)
+        yield "planner", {"op": "balance", "cs": rand_comp(rng, n, rng.choice(["uniform", "uniform", "irregular", "ragged"]))}
+    if ctx.thorough():
+        for n in range(1, 9):
+            for c in comps(n):
+                yield "planner", {"op": "balance", "cs": list(c)}
     # --- API level ----------------------------------------------------------------------------
     for _ in range(ctx.n(150, 1500)):
         nd = rng.choice([1, 1, 2, 2, 3])
@@ -1231,7 +1250,8 @@ def generate(ctx):
         old = [rand_comp_zeros(rng, s) for s in shape]
         target = [rand_comp_zeros(rng, s) if rng.random() < 0.5 else rand_comp(rng, s) for s in shape]
         yield "rechunk", {"old": old, "target": target, "zeros": True, "threshold": rng.choice([None, 1]),
-                          "block_size_limit": rng.choice([None, 16, 64]), "dtype": "i8"}
+                          "block_size_limit": rng.choice([None, 16, 64]), "dtype": "i8",
+                          "balance": True if rng.random() < 0.15 else None}
     # transposition-like rechunks force multi-stage plans
     for _ in range(ctx.n(40, 400)):
         a, b = rng.randint(4, 10), rng.randint(4, 10)
